@@ -361,6 +361,75 @@ fn load_dict_plain(dic: &[u8], res: &std::path::Path, path_rewrite: Value) -> Ja
     JapaneseDictionary::from_cfg_storage(&cfg, SudachiDicData::new(Storage::Owned(dic.to_vec()))).expect("dictionary loads")
 }
 
+
+// ------------------------------------------------------------------------------------------------ termination probe
+/// third lexicon: numeral-class words whose NORMALISED FORM contains separator characters (the numeral plugin feeds
+/// normalised forms, not surfaces, to its parser).  Rows appended to the alt lexicon.
+const SEPNORM_ROWS: &str = "\
+８,9,9,2478,８,名詞,数詞,*,*,*,*,ハチ,\",\",*,A,*,*,*,*
+７,9,9,2478,７,名詞,数詞,*,*,*,*,ナナ,\"1,,2\",*,A,*,*,*,*
+６,9,9,2478,６,名詞,数詞,*,*,*,*,ロク,.5,*,A,*,*,*,*
+５,9,9,2478,５,名詞,数詞,*,*,*,*,ゴ,5.,*,A,*,*,*,*
+３,9,9,2478,３,名詞,数詞,*,*,*,*,サン,\"3,000\",*,A,*,*,*,*
+";
+
+/// analysis in a helper thread; None = no answer within `ms` milliseconds (the thread is abandoned)
+fn analyse_with_timeout(dict: std::sync::Arc<JapaneseDictionary>, text: &str, ms: u64) -> Option<Result<Vec<Node>, String>> {
+    let (tx, rx) = std::sync::mpsc::channel();
+    let t = text.to_string();
+    std::thread::spawn(move || {
+        let r = analyse(&dict, &t);
+        let _ = tx.send(r);
+    });
+    rx.recv_timeout(std::time::Duration::from_millis(ms)).ok()
+}
+
+fn termination_probe(sink: &mut Sink, work: &std::path::Path, only: Option<&str>, verbose: bool) {
+    use sudachi::dic::build::DictBuilder;
+    let mut lex = String::from_utf8(crate::c15::read_repo("sudachi/tests/resources/lex.csv")).unwrap();
+    lex.push('\n');
+    lex.push_str(ALT_ROWS);
+    lex.push_str(SEPNORM_ROWS);
+    let conn = crate::c15::read_repo("sudachi/tests/resources/matrix_10x10.def");
+    let mut b = DictBuilder::new_system();
+    b.read_conn(&conn[..]).expect("matrix");
+    b.read_lexicon(lex.as_bytes()).expect("lexicon");
+    b.resolve().expect("resolve");
+    let mut dic = Vec::new();
+    b.compile(&mut dic).expect("compile");
+    let res = resource_dir(work, "res_c14_res", "resources/char.def");
+    let texts = ["８", "1８", "７円", "６", "12６3", "５５", "３,５", "1,３", "８７６５３", "1.５.2", "に３８７", "５,６,７"];
+    for normalize in [true, false] {
+        let pr = json!([{"class": "com.worksap.nlp.sudachi.JoinNumericPlugin", "enableNormalize": normalize}]);
+        let with = std::sync::Arc::new(load_dict_plain(&dic, &res, pr));
+        for t in texts.iter() {
+            if let Some(o) = only {
+                if o != *t {
+                    continue;
+                }
+            }
+            let d = json!({"kind": "termination", "text": t, "normalize": normalize});
+            sink.tag("termination_probe:separator_in_normalized_form");
+            let id = sink.case_rust_only(d, true);
+            match analyse_with_timeout(with.clone(), t, 2500) {
+                None => sink.fail(id, &format!("{:?} (numeral-class word whose normalised form contains a separator, enableNormalize={}): the analysis does not terminate (no answer after 2.5 s; the numeral-joining loop restarts the same run for ever)", t, normalize), ""),
+                Some(Err(e)) => sink.fail(id, &format!("{:?}: analysis fails with the numeral plugin: {}", t, e), ""),
+                Some(Ok(v)) => {
+                    if verbose {
+                        for n in &v {
+                            println!("  {:?}", n);
+                        }
+                    }
+                    let joined: String = v.iter().map(|n| n.text.as_str()).collect();
+                    if joined != *t {
+                        sink.fail(id, &format!("{:?}: surfaces concatenate to {:?}", t, joined), "");
+                    }
+                }
+            }
+        }
+    }
+}
+
 const PIECES_KATA: [&str; 16] = ["アイ", "アイウ", "コーヒー", "カップ", "アイアイウ", "ラ", "ラーメン", "ァ", "ァイ", "ー", "メ", "ヴ", "ン", "テスト", "ア", "イウ"];
 const PIECES_NUM: [&str; 28] = ["0", "1", "2", "5", "9", "〇", "一", "二", "三", "九", "十", "百", "千", "万", "億", "兆", ",", ".", "12", "1,000", "六三四", "3.14", "4", "四", "42", "49", "1.5", "四十"];
 const PIECES_OTHER: [&str; 16] = ["に", "た", "京都", "東京都", "行っ", "a", "xyz", " ", "円", "。", "特a", "-", "東", "いく", "な。な", "X"];
@@ -416,6 +485,11 @@ pub fn run(args: &Args) {
     if let Some(p) = &args.replay {
         let r: Value = serde_json::from_str(&std::fs::read_to_string(p).unwrap()).unwrap();
         let c = &r["case"];
+        if c["kind"] == "termination" {
+            termination_probe(&mut sink, &args.work, c["text"].as_str(), true);
+            sink.finish();
+            return;
+        }
         let name = c["variant"].as_str().unwrap();
         let v = vs.iter().find(|v| v.name == name).expect("variant of the replay exists");
         run_case(&mut sink, v, c["text"].as_str().unwrap(), "replay", true);
@@ -430,6 +504,7 @@ pub fn run(args: &Args) {
             }
         }
     }
+    termination_probe(&mut sink, &args.work, None, false);
     let plain: Vec<&Variant> = vs.iter().filter(|v| !v.input_plugin).collect();
     let nfkc: Vec<&Variant> = vs.iter().filter(|v| v.input_plugin).collect();
     for _ in 0..args.n(800, 20000) {
